@@ -2,6 +2,7 @@ import JediModel.Proto
 import JediModel.Lemmas.ValidateSpec
 import JediModel.Model.ApiHelpers
 import JediModel.Lemmas.IterArgsSpec
+import JediModel.Lemmas.ErrStart
 open Lean Proto JediModel.Text JediModel.Validate JediModel.ApiHelpers
 
 /-- a parso node as dumped by `harness/props/c01.py:dump_node` -/
@@ -43,6 +44,16 @@ def handle (j : Json) : Json :=
     | .error .attributeError => jobj [("exc", jstr "AttributeError")]
     | .error .indexError => jobj [("exc", jstr "IndexError")]
     | .error .fuel => jobj [("exc", jstr "fuel")]
+  | "errstart" =>
+    -- children: [[line, column, is `;`], ...]; ns / ne: start / end position of the name
+    let children : List JediModel.ErrStart.Child := (arr j "children").map fun c =>
+      match c with
+      | .arr a => ⟨(asNat (a.getD 0 .null), asNat (a.getD 1 .null)), (a.getD 2 .null) == Json.bool true⟩
+      | _ => ⟨(0, 0), false⟩
+    let pos (k : String) : Nat × Nat := let p := (arr j k).map asNat; (p.getD 0 0, p.getD 1 0)
+    match JediModel.ErrStart.firstNode JediModel.ErrStart.sourceSpec children (pos "ns") (pos "ne") with
+    | .ok s => jobj [("first", jnat s)]
+    | .error .indexError => jobj [("exc", jstr "IndexError")]
   | "lines" => jarr ((splitLines (chars j "text")).map jchars)
   | op => jobj [("error", jstr ("unknown op " ++ op))]
 
